@@ -1544,6 +1544,7 @@ def mon_C13(run):
     bad = []
     handouts = {}      # id -> number of hand-outs so far
     last = {}          # id -> metrics string at the last hand-out
+    born = {}          # id -> creation instant as first shown (to a post_create hook)
     for row in run.rows:
         if row is None:
             continue
@@ -1557,6 +1558,8 @@ def mon_C13(run):
                     bad.append((k, f"object {oid} handed out for the {n + 1}. time with recycle_count {rc}"))
                 if (rec == "-") != (n == 0):
                     bad.append((k, f"object {oid}: hand-out #{n + 1} reports recycled={rec}"))
+                if oid in born and created != born[oid]:
+                    bad.append((k, f"object {oid}: the creation instant shown to its post_create hook was {born[oid]}, its hand-out reports {created}"))
                 if oid in last:
                     _, _, c0, r0 = last[oid].split(":")
                     if created != c0:
@@ -1576,6 +1579,8 @@ def mon_C13(run):
                 f = args[2].split(":")
                 if f[1] != "0" or f[3] != "-":
                     bad.append((k, f"post_create hook saw used metrics {args[2]}"))
+                if born.setdefault(f[0], f[2]) != f[2]:
+                    bad.append((k, f"object {f[0]}: creation instant changed between post_create hooks: {born[f[0]]} -> {f[2]}"))
         for x in (row["idle"] or []):
             oid = x.split(":")[0]
             if last.get(oid) != x:
